@@ -115,6 +115,7 @@ func (c *ctx) probeConn(i int) {
 					c.v("C01/decode-differs", "conn %d invocation %d: library decoder %s yields a different value than the RFC layout carries", id, inv.Index, pr.Step.Decode)
 				}
 			}
+			pr.Lost = c.replyWriteRefused(id, inv.Index)
 			expReplies = append(expReplies, pr)
 			if len(cs.Handler) > inv.Index && len(cs.Handler[inv.Index].Extra) > 0 {
 				// several Reply calls: judged by the reply packets only
@@ -181,6 +182,30 @@ func (c *ctx) probeConn(i int) {
 	}
 replies:
 	c.probeReplies(id, cs, srvKey, expReplies, replies, tail, complete, quiet)
+}
+
+// replyWriteRefused: inside the given handler invocation the transport refused a write
+// outright (all-or-nothing failure): that reply is not on the wire, and nothing of it.
+func (c *ctx) replyWriteRefused(conn, idx int) bool {
+	in := false
+	for _, e := range c.r.Events {
+		if e.Conn != conn {
+			continue
+		}
+		switch e.Kind {
+		case "invoke":
+			in = int(e.A) == idx
+		case "invoke-end":
+			if int(e.A) == idx {
+				return false
+			}
+		case "write":
+			if in && e.S == "error" {
+				return true
+			}
+		}
+	}
+	return false
 }
 
 // replyResult returns the error text (empty = success) of the first Reply call made
@@ -306,7 +331,7 @@ func (c *ctx) probeReplies(id int, cs *plan.ClientSpec, srvKey []byte, exp []pla
 			return
 		}
 		n := 0
-		if pr.Reply {
+		if pr.Reply && !pr.Lost {
 			n = 1
 		}
 		if pr.Step.Reply != nil && !pr.Reply && pr.H.Seq == 255 {
